@@ -89,6 +89,42 @@ def make_wcs(rng, kind):
     return w, scale, box
 
 
+def nd_batches(ctx, rng, problems):
+    """n-d batches (grids) of in-image world points with one NaN entry, failures reported (quiet off), every iteration mode: the call
+    converges, every finite entry maps back onto its world point and the NaN stays at its own position only"""
+    from gwcs.wcs import NoConvergence
+    for k in range(3 if ctx.quick else 30):
+        w, scale, box = make_wcs(rng, "aligned")
+        shape = rng.choice([(3, 4), (4, 3), (2, 3, 2), (5, 2)])
+        nel = int(np.prod(shape))
+        x = np.array([rng.uniform(*box[0]) for _ in range(nel)]).reshape(shape)
+        y = np.array([rng.uniform(*box[1]) for _ in range(nel)]).reshape(shape)
+        with np.errstate(all="ignore"):
+            ra, dec = w(x, y, with_bounding_box=False)
+        ra, dec = np.array(ra, dtype=float), np.array(dec, dtype=float)
+        pos = np.unravel_index(rng.randrange(1, nel - 1), shape)       # not the first / last element: those survive a transposition
+        ra[pos] = np.nan
+        for adaptive in (True, False):
+            for detect in (True, False):
+                rec = {"shape": list(shape), "nan_at": [int(i) for i in pos], "adaptive": adaptive, "detect_divergence": detect,
+                       "pixels": [x.tolist(), y.tolist()]}
+                ctx.case(key=("nd", k, adaptive, detect), nontrivial=True, kind=f"nd-batch/{len(shape)}d", sample={k_: rec[k_] for k_ in ("shape", "nan_at", "adaptive", "detect_divergence")})
+                try:
+                    with np.errstate(all="ignore"):
+                        px, py = w.numerical_inverse(ra, dec, adaptive=adaptive, detect_divergence=detect, quiet=False, with_bounding_box=False)
+                except NoConvergence as e:
+                    problems.append((f"numerical_inverse on a {shape} grid of in-image points with one NaN at {tuple(int(i) for i in pos)} raised NoConvergence "
+                                     f"(adaptive={adaptive}, detect_divergence={detect}; divergent {None if e.divergent is None else e.divergent.tolist()}, "
+                                     f"slow {None if e.slow_conv is None else e.slow_conv.tolist()})", rec, None))
+                    continue
+                px, py = np.asarray(px, dtype=float), np.asarray(py, dtype=float)
+                bad = np.hypot(px - x, py - y) > 1e-3
+                bad[pos] = not (np.isnan(px[pos]) and np.isnan(py[pos]))
+                if px.shape != tuple(shape) or bad.any():
+                    problems.append((f"numerical_inverse on a {shape} grid with one NaN at {tuple(int(i) for i in pos)}: entries "
+                                     f"{np.argwhere(bad).tolist()[:4]} are not the pixels they came from (adaptive={adaptive}, detect_divergence={detect})", rec, None))
+
+
 def corpus_hole(ctx, problems):
     """the minimal history found while proving (NaN correction on the switch iteration), replayed on every run"""
     from astropy import coordinates as coord
@@ -157,6 +193,7 @@ def run(ctx):
     W.optimize.root = logged_root
     nw = 14 if ctx.quick else 150
     corpus_hole(ctx, problems)
+    nd_batches(ctx, rng, problems)
     try:
         for wi in range(nw):
             kind = "aligned" if wi % 2 == 0 else "edge"
